@@ -874,7 +874,8 @@ def op_checksequenceverify(stack, tx_obj, input_index):
     element = decode_num(stack[-1])
     if element < 0:
         return False
-    stack_sequence = Sequence(element)
+    # the operand may be 5 bytes long; BIP112 only reads its low 32 bits
+    stack_sequence = Sequence(element & 0xFFFFFFFF)
     # BIP112: if the disable flag of the operand is set, this is a NOP
     if not stack_sequence.is_relative():
         return True
